@@ -75,6 +75,50 @@ def trim_set_of(facts, fn, trim_site):
     raise Undecided("unrecognised trim pattern operand")
 
 
+def find_push_loop(ctx, facts, fn, F):
+    """the sanitizer written as a loop: `for c in key.chars() { out.push(<f(c)>) }` with `out` the returned String.
+    Returns the image atom -> pushed value, or None if the function has no such loop."""
+    from .core.absint import char_region_image
+    from .core.cond import all_tests, borrowed_local
+    pushes = fn.calls(re.compile(r"string::String::push$|String::push$"))
+    nexts = []
+    for c_ in fn.calls(re.compile(r"Chars.*Iterator>::next$|str::Chars.*::next$|Iterator::next$")):
+        rsrc, _, _ = origins(fn, c_.node["args"][0])
+        chars_calls = [o for o in rsrc if o.kind == "call" and re.search(r"str>?::chars$", o.what)]
+        if len(chars_calls) == 1:
+            src2, _, _ = origins(fn, chars_calls[0].site.node["args"][0])
+            if (not origin_calls(src2)) and len(origin_args(src2)) == 1:
+                nexts.append(c_)
+    if len(pushes) != 1 or len(nexts) != 1:
+        return None
+    push, nxt = pushes[0], nexts[0]
+    N = nxt.node["dest"]["l"]
+    some_edge = None
+    for T in all_tests(fn):
+        if T.kind == "discr" and not T.place["p"] and T.place["l"] == N:
+            some_edge = T.variant_edges.get(1) or ((T.bb, T.otherwise) if T.otherwise is not None and 0 in T.variant_edges else None)
+    if some_edge is None or not fn.edge_guards(some_edge, push.bb):
+        return None
+    # the String pushed into is the one returned, it starts empty and nothing else writes it
+    S = borrowed_local(fn, push.node["args"][0])
+    ret_locals = {op_local(st_["rv"]["op"]) for s_, st_ in fn.assigns() if st_["place"]["l"] == 0 and not st_["place"]["p"] and st_["rv"]["k"] == "use"} - {None}
+    if S is None or S not in ret_locals:
+        ctx.violate("C14.1", F, "loop-result-not-returned", fn.relfile, push.line, "the string the sanitising loop fills is not the one sanitize_namespace returns")
+        return None
+    inits = [callee_name(n_) for s_, k_, n_ in fn.defs.get(S, []) if k_ == "call"]
+    others = [c_ for c_ in fn.calls(re.compile(r"String::(push_str|insert|insert_str|extend|push)$|::write_str$|::write_fmt$")) if c_ is not push and (c_.bb, c_.idx) != (push.bb, push.idx) and borrowed_local(fn, c_.node["args"][0]) == S]
+    if not inits or not all(re.search(r"String::(new|with_capacity)$", i_) for i_ in inits) or others:
+        ctx.violate("C14.1", F, "loop-result-has-other-writers", fn.relfile, push.line, "the sanitised string is also written outside the per-character push (initialised by %s, %d other writer(s))" % (inits, len(others)))
+        return None
+    try:
+        img = char_region_image(fn, some_edge[1], lambda a: {N: {"__discr": 1, "0": a}, 1: ("key",)}, r"String::push$")
+    except Undecided as e:
+        ctx.violate("C14.1", F, "closure-undecided", fn.relfile, push.line, "the sanitising loop body cannot be interpreted over the char partition (%s): fail closed" % e)
+        return None
+    ctx.ok("C14.1", F, "the sanitiser is a loop over key.chars() that pushes one mapped character per input character into the returned string", fn.relfile, push.line)
+    return img
+
+
 def check_sanitizer(ctx, facts, fn_name="wal::config::sanitize_namespace"):
     fn = facts.body(fn_name)
     ctx.saw_body(fn)
@@ -96,35 +140,42 @@ def check_sanitizer(ctx, facts, fn_name="wal::config::sanitize_namespace"):
             clo, map_site, mapfn = hclo, hsite, hb
             ctx.saw_body(hb)
             break
+    loop_img = None
     if clo is None:
+        loop_img = find_push_loop(ctx, facts, fn, F)
+    if clo is None and loop_img is None:
         ctx.anchor_missing("C14.1", "sanitizer map closure", "sanitize_namespace no longer maps its characters through a closure passed to Iterator::map (itself or in a helper it calls); CHARABS has nothing to interpret")
         return
-    ctx.saw_body(clo)
-    # the mapped iterator must be the chars() of the key argument and the result collect()ed
     fn_outer = fn
-    fn = mapfn
-    src, _, _ = origins(fn, map_site.node["args"][0])
-    chars_calls = [o for o in src if o.kind == "call" and re.search(r"str>?::chars$", o.what)]
-    ok_src = False
-    if len(chars_calls) == 1 and len(origin_calls(src)) == 1:
-        src2, _, _ = origins(fn, chars_calls[0].site.node["args"][0])
-        ok_src = (not origin_calls(src2)) and len(origin_args(src2)) == 1
-    if not ok_src:
-        ctx.violate("C14.1", F, "map-source", fn.relfile, map_site.line, "the mapped iterator is not `<the key argument>.chars()`")
+    if loop_img is not None:
+        img = loop_img
+        clo = fn            # reports below name the function that holds the loop
     else:
-        ctx.ok("C14.1", F, "mapped iterator is key.chars()", fn.relfile, map_site.line)
-    # the collected string must be the map's result (no filter/chain in between that could re-introduce characters)
-    for s in fn.calls(re.compile(r"Iterator::collect$")):
-        csrc, _, _ = origins(fn, s.node["args"][0])
-        if origin_calls(csrc) != {"std::iter::Iterator::map"}:
-            ctx.violate("C14.1", F, "collect-source", fn.relfile, s.line, "collect() is fed by %s, expected the mapped iterator only" % sorted(origin_calls(csrc)))
+        ctx.saw_body(clo)
+        # the mapped iterator must be the chars() of the key argument and the result collect()ed
+        fn = mapfn
+        src, _, _ = origins(fn, map_site.node["args"][0])
+        chars_calls = [o for o in src if o.kind == "call" and re.search(r"str>?::chars$", o.what)]
+        ok_src = False
+        if len(chars_calls) == 1 and len(origin_calls(src)) == 1:
+            src2, _, _ = origins(fn, chars_calls[0].site.node["args"][0])
+            ok_src = (not origin_calls(src2)) and len(origin_args(src2)) == 1
+        if not ok_src:
+            ctx.violate("C14.1", F, "map-source", fn.relfile, map_site.line, "the mapped iterator is not `<the key argument>.chars()`")
         else:
-            ctx.ok("C14.1", F, "collect() is fed by the mapped iterator", fn.relfile, s.line)
-    try:
-        img = char_closure_image(clo)
-    except Undecided as e:
-        ctx.violate("C14.1", F, "closure-undecided", clo.relfile, clo.line, "sanitizer closure cannot be interpreted over the char partition (%s): fail closed" % e)
-        return
+            ctx.ok("C14.1", F, "mapped iterator is key.chars()", fn.relfile, map_site.line)
+        # the collected string must be the map's result (no filter/chain in between that could re-introduce characters)
+        for s in fn.calls(re.compile(r"Iterator::collect$")):
+            csrc, _, _ = origins(fn, s.node["args"][0])
+            if origin_calls(csrc) != {"std::iter::Iterator::map"}:
+                ctx.violate("C14.1", F, "collect-source", fn.relfile, s.line, "collect() is fed by %s, expected the mapped iterator only" % sorted(origin_calls(csrc)))
+            else:
+                ctx.ok("C14.1", F, "collect() is fed by the mapped iterator", fn.relfile, s.line)
+        try:
+            img = char_closure_image(clo)
+        except Undecided as e:
+            ctx.violate("C14.1", F, "closure-undecided", clo.relfile, clo.line, "sanitizer closure cannot be interpreted over the char partition (%s): fail closed" % e)
+            return
     image = set()
     for a, r in img.items():
         if isinstance(r, bool):
@@ -160,6 +211,18 @@ def check_sanitizer(ctx, facts, fn_name="wal::config::sanitize_namespace"):
             t = fn.term(b)
             if t["k"] == "switch" and op_local(fn.resolve_copy(t["discr"])) == dl:
                 tests.append((s, b))
+    # or: `<result>.chars().all(|c| <c is a filler or a dot>)` - the same question asked per character
+    all_sites = set()
+    for s in fn.calls(re.compile(r"Iterator::all$")):
+        rsrc, _, _ = origins(fn, s.node["args"][0])
+        if not any(o.kind == "call" and re.search(r"str>?::chars$", o.what) for o in rsrc):
+            continue
+        dl = s.node["dest"]["l"]
+        for b in fn.live_blocks:
+            t = fn.term(b)
+            if t["k"] == "switch" and op_local(fn.resolve_copy(t["discr"])) == dl:
+                tests.append((s, b))
+                all_sites.add((s.bb, s.idx))
     if not tests:
         if DOT in image or True:
             ctx.violate("C14.2", F, "no-emptiness-test", fn.relfile, fn.line,
@@ -169,7 +232,9 @@ def check_sanitizer(ctx, facts, fn_name="wal::config::sanitize_namespace"):
         arg_src, _, _ = origins(fn, is_empty_site.node["args"][0], stop_calls=[r"trim_matches$", r"trim_start_matches$", r"trim_end_matches$"])
         trims = [o for o in arg_src if o.kind == "call" and re.search(r"trim_matches$", o.what)]
         try:
-            if trims:
+            if (is_empty_site.bb, is_empty_site.idx) in all_sites:
+                T = trim_set_of(facts, fn, is_empty_site)      # the characters for which the predicate holds
+            elif trims:
                 T = trim_set_of(facts, fn, trims[0].site)
             else:
                 T = set()
@@ -224,6 +289,24 @@ def check_sanitizer(ctx, facts, fn_name="wal::config::sanitize_namespace"):
                 lit = pieces
             elif strs:
                 lit = [s.encode() for s in strs]
+            # string constants handed to the template as `{}` arguments (`format!("{}{:x}", PREFIX, n)`) are literals too
+            const_args = {}
+            for o in src:
+                if o.kind == "call" and "Argument" in o.what and re.search(r"new_display$", o.what):
+                    asrc, _, _ = origins(fn, o.site.node["args"][0])
+                    cs_ = [x for x in asrc if x.kind == "const" and x.extra is not None and "str" in x.extra and str(x.extra.get("ty", "")).endswith("&str")]
+                    al_ = op_local(o.site.node["args"][0])
+                    # the slice over the argument tuple is not field-sensitive: the operand's own type decides which
+                    # of the tuple's origins it is
+                    if len(cs_) == 1 and al_ is not None and re.match(r"^&+(\'static )?str$", fn.local_ty(al_)) and not origin_args(asrc):
+                        const_args[(o.site.bb, o.site.idx)] = cs_[0].extra["str"].encode()
+            if lit and (lit[0] is None or len(lit[0]) == 0) and const_args and tmpl:
+                # the template starts with an argument: accept when every Display argument is a string constant, and take
+                # the first of them (in call order) as the prefix
+                disp = [o for o in src if o.kind == "call" and "Argument" in o.what and re.search(r"new_display$", o.what)]
+                if all((o.site.bb, o.site.idx) in const_args for o in disp):
+                    firsts = sorted(const_args.items())
+                    lit = [firsts[0][1]] + [v for k_, v in firsts[1:]] + [p_ for p_ in lit if p_]
             if not lit or lit[0] is None or len(lit[0]) == 0:
                 ctx.violate("C14.2", F, "fallback-prefix", fn.relfile, site.line, "the fallback value does not start with a literal prefix")
                 continue
@@ -238,6 +321,8 @@ def check_sanitizer(ctx, facts, fn_name="wal::config::sanitize_namespace"):
             argtys_ok = True
             for o in src:
                 if o.kind == "call" and "Argument" in o.what:
+                    if (o.site.bb, o.site.idx) in const_args:
+                        continue      # a string constant, judged as part of the literal text above
                     a0 = o.site.node["args"][0]
                     p = op_place(a0)
                     ty = fn.local_ty(p["l"]) if p else ""
@@ -339,28 +424,7 @@ def check_path_builders(ctx, facts):
             T, which = classify_edge(body, e)
             ok_b = False
             if T is not None and T.kind == "discr" and not T.place["p"]:
-                l = T.place["l"]
-                seen_l = set()
-                while l is not None and l not in seen_l:
-                    seen_l.add(l)
-                    if 1 <= l <= body.arg_count:
-                        ok_b = True
-                        break
-                    cs = call_site_of(body, {"k": "copy", "place": {"l": l, "p": []}})
-                    if cs is not None:
-                        cn = strip_generics(callee_name(cs.node))
-                        if re.search(r"Option::(map|as_deref|as_ref|as_mut|copied|cloned|inspect)$|Result::(ok|map|as_ref|as_deref)$", cn) and cs.node["args"]:
-                            # adaptors that keep Some-ness: `no key supplied` is decided by their receiver
-                            l = op_local(body.resolve_copy(cs.node["args"][0]))
-                            continue
-                        ok_b = bool(re.search(r"(config|paths)::thread_namespace$|^std::env::var$|::thread_namespace$", cn))
-                        break
-                    sd = body.single_def(l)
-                    if sd is not None and sd[1] == "assign" and sd[2]["rv"]["k"] in ("use", "cast"):
-                        q = op_place(sd[2]["rv"]["op"])
-                        l = q["l"] if q is not None and not q["p"] else None
-                    else:
-                        l = None
+                ok_b = _is_key_presence(facts, body, T.place["l"])
             if ok_b:
                 ctx.ok("C14.3", F, "the sanitised push is skipped only when no key was supplied", body.relfile, body.term(e[0]).get("line"))
             else:
@@ -455,6 +519,57 @@ def check_path_builders(ctx, facts):
             ctx.violate("C14.3", w, "root-written-outside-constructors", None, None, "%s writes WalPathManager.root; only the three constructors may" % w)
     # (a constructor may delegate to another one: at least one of them builds the value)
     ctx.floor("C14.3", "WalPathManager constructors", len(writers & allowed_w), 1)
+
+
+from .core.cond import call_site_of as _csof
+
+
+KEY_SOURCE = re.compile(r"(config|paths)::thread_namespace$|^std::env::var$|::thread_namespace$")
+SOME_PRESERVING = re.compile(r"Option::(map|as_deref|as_ref|as_mut|copied|cloned|inspect)$|Result::(ok|map|as_ref|as_deref)$")
+
+
+def _is_key_presence(facts, body, l, depth=0):
+    """the Option / Result held in local l is Some / Ok exactly when a namespace key was supplied: a parameter, the direct
+    result of a key source (thread_namespace(), env::var(..)), a Some-preserving adaptor of one, or `a.or_else(|| b)` /
+    `a.or(b)` of two of them"""
+    seen_l = set()
+    while l is not None and l not in seen_l and depth < 8:
+        seen_l.add(l)
+        if 1 <= l <= body.arg_count:
+            return True
+        cs = _csof(body, {"k": "copy", "place": {"l": l, "p": []}})
+        if cs is not None:
+            cn = strip_generics(callee_name(cs.node))
+            if SOME_PRESERVING.search(cn) and cs.node["args"]:
+                l = op_local(body.resolve_copy(cs.node["args"][0]))
+                continue
+            if re.search(r"Option::(or_else|or)$", cn) and len(cs.node["args"]) == 2:
+                r0 = op_local(body.resolve_copy(cs.node["args"][0]))
+                if r0 is None or not _is_key_presence(facts, body, r0, depth + 1):
+                    return False
+                a1 = cs.node["args"][1]
+                l1 = op_local(body.resolve_copy(a1))
+                if cn.endswith("::or"):
+                    return l1 is not None and _is_key_presence(facts, body, l1, depth + 1)
+                # or_else(closure): what the closure returns
+                sd = body.single_def(l1) if l1 is not None else None
+                if sd and sd[1] == "assign" and sd[2]["rv"]["k"] == "agg" and sd[2]["rv"].get("akind") == "closure":
+                    clo = facts.bodies.get(sd[2]["rv"].get("name"))
+                    if clo is not None:
+                        src, _, _ = origins(clo, {"k": "copy", "place": {"l": 0, "p": []}}, follow_all_calls=True)
+                        calls_ = [strip_generics(o.what) for o in src if o.kind == "call"]
+                        return bool(calls_) and all(KEY_SOURCE.search(c_) or SOME_PRESERVING.search(c_) for c_ in calls_) and any(KEY_SOURCE.search(c_) for c_ in calls_)
+                return False
+            return bool(KEY_SOURCE.search(cn))
+        sd = body.single_def(l)
+        if sd is not None and sd[1] == "assign" and sd[2]["rv"]["k"] in ("use", "cast"):
+            q = op_place(sd[2]["rv"]["op"])
+            l = q["l"] if q is not None and not q["p"] else None
+        elif sd is not None and sd[1] == "assign" and sd[2]["rv"]["k"] == "ref" and not sd[2]["rv"]["place"]["p"]:
+            l = sd[2]["rv"]["place"]["l"]     # a borrow of the Option (`key.as_deref()`)
+        else:
+            l = None
+    return False
 
 
 def run(ctx):
